@@ -177,11 +177,11 @@ def _trace_sig(t, bad, l):
 
 GEN_FAMILIES = [
     # (name, overrides, L quick, L thorough): every sequence over the family's alphabet up to L
-    ("all", {"Ops": ALL_OPS, "Timeouts": "{0, 1, 999}", "MaxSizes": "{0, 1, 2}", "Prios": "{1, 2}", "MaxAdvance": 2}, 3, 4),
+    ("all", {"Ops": ALL_OPS, "Timeouts": "{0, 1, 999}", "MaxSizes": "{0, 1, 2}", "Prios": "{1, 2}", "MaxAdvance": 2}, 3, 3),     # L = 4 is 3.7e5 behaviours x 4 placements: > 75 min
     ("core", {"Ops": '{"put", "put_nowait", "get", "get_nowait", "cancel_put", "cancel_get"}', "Timeouts": "{999}",
               "MaxSizes": "{1, 2}", "Prios": "{1, 2}", "NJ": 1}, 5, 6),
     ("timed", {"Ops": '{"put", "get", "advance", "cancel_put", "cancel_get"}', "Timeouts": "{1, 2}", "MaxSizes": "{1}",
-               "Prios": "{1}", "MaxAdvance": 2, "NJ": 1}, 5, 6),
+               "Prios": "{1}", "MaxAdvance": 2, "NJ": 1}, 5, 5),
     ("join", {"Ops": '{"put_nowait", "get_nowait", "task_done", "join", "advance", "cancel_join"}', "Timeouts": "{1, 999}",
               "MaxSizes": "{0}", "Kinds": '{"fifo"}', "MaxAdvance": 1, "NJ": 3}, 6, 7),
     ("acct", {"Ops": '{"put", "get", "task_done", "join"}', "Timeouts": "{999}", "MaxSizes": "{1}", "Prios": "{1}",
@@ -260,13 +260,13 @@ def run(ctx):
     ctx.cov["exhaustive"] = True
     t0 = _timed(ctx, "s2c-enum", t0)
     # long seeded walks through larger constants
-    sync_paths.sim_replay(ctx, "Gen_Queue", "Sim_Queue.cfg", num=ctx.pick(60, 2000), depth=ctx.pick(30, 40),
+    sync_paths.sim_replay(ctx, "Gen_Queue", "Sim_Queue.cfg", num=ctx.pick(60, 1000), depth=ctx.pick(30, 40),
                           overrides={"NP": 14, "NG": 14, "NJ": 6, "MaxSizes": "{0, 1, 2, 3}", "Prios": "{1, 2, 3}",
                                      "Timeouts": "{0, 1, 2, 3, 999}", "MaxAdvance": 3},
                           replayer=replayer)
     t0 = _timed(ctx, "s2c-sim", t0)
     # 3. code -> spec: random recorded runs validated by TLC
-    c2s(ctx, ctx.pick(96, 4000))
+    c2s(ctx, ctx.pick(96, 2000))
     t0 = _timed(ctx, "c2s", t0)
     ctx.cov["rule"] = ("paths: " + "; ".join(rule) + "; per queue class; plus seeded TLC simulation walks (depth 40) and "
                        "random recorded runs; distinct = distinct (config, operation sequence); non-trivial = length >= 2 "
